@@ -71,9 +71,9 @@ theorem pulseIsValid_iff (ε : α) (n : ℕ) (integ : α → α → α) (f : α 
   unfold pulseIsValid
   simp only [Bool.and_eq_true, decide_eq_true_eq, absv_eq_abs, all_linspace]
 
-theorem paramIsValid_iff (ε : α) (n : ℕ) (F : α → α) :
-    paramIsValid ε n F = true ↔
-      |F 0| < ε ∧ |F 1 - 1| < ε ∧ ∀ k, k < n → F (grid 0 (1 - ε) n k) ≤ F (grid 0 (1 - ε) n k + ε) := by
+theorem paramIsValid_iff (ε τ : α) (n : ℕ) (F : α → α) :
+    paramIsValid ε τ n F = true ↔
+      |F 0| < ε ∧ |F 1 - 1| < ε ∧ ∀ k, k < n → F (grid 0 (1 - ε) n k) - τ ≤ F (grid 0 (1 - ε) n k + ε) := by
   unfold paramIsValid
   simp only [Bool.and_eq_true, decide_eq_true_eq, absv_eq_abs, all_linspace, sub_zero, and_assoc]
 
